@@ -30,13 +30,13 @@ theorem C06_empty_base (cfg : Cfg) (I : Idna) (r : Bytes) : parseRef cfg I [] r 
     port; file: host, path, query; file slash: host) — `decodedPort` is the Go-side cache that travels with the port.
     A forgotten or an extra copy in the Go source changes the regenerated list. -/
 theorem C06_base_copies : Generated.baseCopies = [
-    ("StateNoScheme", ["url.scheme = base.scheme", "url.path = base.path", "url.query = base.query"]),
-    ("StateRelative", ["url.scheme = base.scheme", "url.username = base.username", "url.password = base.password", "url.host = base.host",
-                       "url.port = base.port", "url.decodedPort = base.decodedPort", "url.path = base.path", "url.query = base.query"]),
-    ("StateRelativeSlash", ["url.username = base.username", "url.password = base.password", "url.host = base.host", "url.port = base.port",
-                            "url.decodedPort = base.decodedPort"]),
     ("StateFile", ["url.host = base.host", "url.path = base.path", "url.query = base.query"]),
-    ("StateFileSlash", ["url.host = base.host"])] := by decide
+    ("StateFileSlash", ["url.host = base.host"]),
+    ("StateNoScheme", ["url.path = base.path", "url.query = base.query", "url.scheme = base.scheme"]),
+    ("StateRelative", ["url.decodedPort = base.decodedPort", "url.host = base.host", "url.password = base.password", "url.path = base.path",
+                       "url.port = base.port", "url.query = base.query", "url.scheme = base.scheme", "url.username = base.username"]),
+    ("StateRelativeSlash", ["url.decodedPort = base.decodedPort", "url.host = base.host", "url.password = base.password", "url.port = base.port",
+                            "url.username = base.username"])] := by decide
 
 /-- the three entry points funnel into one algorithm -/
 theorem C06_entry_point_callees : ∀ c ∈ Generated.callees,
